@@ -186,7 +186,6 @@ StepEvent ==
                      \o (IF e.ph = PH_fix /\ Safe(c) /\ ~broken /\ ~MirrorFrom(gs', st, Min(e.kept, Len(st.stk)))
                          THEN <<V(r, k, "C17", "simulated stack differs from the reference stack")>> ELSE <<>>)
           ELSE
-             /\ broken' = (broken \/ ~(lexd'.known /\ lexd'.ok /\ lexd'.nxt = e.len + 1) \/ st'.cls # "")
              /\ cnt' = [cnt EXCEPT !.body = @ + (IF e.ph = PH_body THEN 1 ELSE 0),
                                    !.tail = @ + (IF e.ph \in {PH_close, PH_collapse, PH_pad} THEN 1 ELSE 0),
                                    !.ops = @ + 1,
@@ -201,6 +200,8 @@ StepEvent ==
                          THEN <<V(r, k, "C06", "FRAME length differs from the number of bytes that follow")>> ELSE <<>>)
                      \o (IF e.ph = PH_stop /\ lexd'.op # B_STOP THEN <<V(r, k, "C04", "final opcode is not STOP")>> ELSE <<>>)
                      \o (IF e.ph \in EmitPhases THEN DriftFindings(r, k, e, c, gs') ELSE <<>>)
+             /\ broken' = (broken \/ ~(lexd'.known /\ lexd'.ok /\ lexd'.nxt = e.len + 1) \/ st'.cls # ""
+                           \/ \E j \in 1..Len(msgs') : msgs'[j][1] = "V" /\ msgs'[j][4] = "C17")
     /\ UNCHANGED run
 
 (* after the last event of a run: whole-output checks, then the next run *)
